@@ -50,7 +50,7 @@ def natInRange (bits : Nat) (n : Nat) : Bool := n < 2 ^ bits
 
 inductive DErr where
   | mismatch      -- the text cannot be decoded into the type
-  | na            -- outside the small decoder (floats, base64, interfaces, `,string`, callbacks)
+  | na            -- outside the small decoder (base64, interfaces, `,string`, callbacks)
 deriving Repr, DecidableEq, Inhabited
 
 /-- position of the field with this JSON name among the emitted fields -/
@@ -87,6 +87,10 @@ def decV : GoType → JVal → Except DErr GoVal
     | some s => .ok (.str s)
     | none => .error .mismatch
   | .num, .num l => .ok (.num l)
+  | .f64, .num l => (match Num.toF64Bits l with | .ok b => .ok (.f64 b) | .error _ => .error .mismatch)
+  | .f32, .num l => (match Num.toF32Bits l with | .ok b => .ok (.f32 b) | .error _ => .error .mismatch)
+  | .f64, .null => .ok (.f64 0)
+  | .f32, .null => .ok (.f32 0)
   | .ptr _, .null => .ok .nil
   | .ptr t, j => (decV t j).map .ptr
   | .sl _, .null => .ok .nil
@@ -111,7 +115,7 @@ def decV : GoType → JVal → Except DErr GoVal
   | .int _, .null => .ok (.int 0)
   | .uint _, .null => .ok (.uint 0)
   | .str, .null => .ok (.str [])
-  | .f32, _ | .f64, _ | .bytes, _ | .raw, _ | .any, _ | .lib _, _ => .error .na
+  | .bytes, _ | .raw, _ | .any, _ | .lib _, _ => .error .na
   | _, _ => .error .mismatch
 def decL (t : GoType) : List JVal → Except DErr (List GoVal)
   | [] => .ok []
